@@ -18,7 +18,7 @@ use crate::{
     op_reluctant_fixed::ReluctantFixed,
     op_repeat::Repeat,
     op_sequence::Sequence,
-    operation::{Operation, OperationControl, MATCHES_ZLS_ANYWHERE},
+    operation::{Operation, OperationControl, MATCHES_ZLS_ANYWHERE, MATCHES_ZLS_NEVER},
     re_flags::{Language, ReFlags},
     re_program::{ReProgram, OPT_HASBACKREFS},
 };
@@ -1072,6 +1072,12 @@ impl ReCompiler {
             if repeat_operation.min() == 0 {
                 return false;
             }
+        }
+        // disjoint first sets are only conclusive if the following term must
+        // consume a character: a term that can match the empty string lets the
+        // terms after it see the input too
+        if op1.matches_empty_string() != MATCHES_ZLS_NEVER {
+            return false;
         }
         let c0 = op0.get_initial_character_class(case_blind);
         let c1 = op1.get_initial_character_class(case_blind);
